@@ -48,16 +48,42 @@ func c06Scenario(r *vx.Rand) {
 	bHasTxn := false
 	inAgg := func() bool { return a.Txn().IsInAggressiveLockingMode() }
 	n := 2 + r.Intn(10)
+	touched := map[string]bool{} // keys a has written or locked: an insert presumes an untouched key
 	for i := 0; i < n; i++ {
 		k := pick(r, keys)
 		var f func()
 		switch x := r.Intn(100); {
 		case x < 12:
-			f = func() { a.Set(k, val(0, 0, i)) }
+			// a pessimistic transaction locks what it writes and gives the write up if the lock fails
+			fl := pick(r, []string{"-", "n"})
+			f = func() {
+				if !pess || a.Lock([][]byte{k}, fl) == "ok" {
+					a.Set(k, val(0, 0, i))
+				}
+			}
+			touched[string(k)] = true
 		case x < 18:
-			f = func() { a.Delete(k) }
+			fl := pick(r, []string{"-", "n"})
+			f = func() {
+				if !pess || a.Lock([][]byte{k}, fl) == "ok" {
+					a.Delete(k)
+				}
+			}
+			touched[string(k)] = true
 		case x < 25:
-			f = func() { a.Insert(k, val(0, 0, i)) }
+			if touched[string(k)] {
+				f = func() {
+					if !pess || a.Lock([][]byte{k}, "-") == "ok" {
+						a.Set(k, val(0, 0, i))
+					}
+				}
+			} else if pess {
+				fl := pick(r, []string{"-", "n"})
+				f = func() { a.InsertLocked(k, val(0, 0, i), fl) }
+			} else {
+				f = func() { a.Insert(k, val(0, 0, i)) }
+			}
+			touched[string(k)] = true
 		case x < 55:
 			ks := [][]byte{k}
 			if r.Chance(30) {
@@ -68,6 +94,9 @@ func c06Scenario(r *vx.Rand) {
 				fl = pick(r, []string{"-", "-", "n", "r", "rn", "c", "re", "cn"})
 			}
 			f = func() { a.Lock(ks, fl) }
+			for _, x := range ks {
+				touched[string(x)] = true
+			}
 		case x < 63:
 			if !pess || inAgg() {
 				continue
